@@ -12,7 +12,10 @@ RULE = ('(set of >= 2 genomes / signatures incl. identical genomes (zero distanc
         'list file + --ldir, signature file}, -k/-p, -c). The Newick text printed by `gambit tree` is parsed (quoted labels) and checked by the Lean checker '
         'GambitV.checkTree against D = the real pairwise distance matrix of the real signatures: leaves = labels each once, binary, branch lengths >= 0, '
         'ultrametric, every merge a valid average-linkage step at its height (so path = 2 x merge height), tolerance = printed precision (8 significant digits). '
-        'Also linkage_to_bio_tree on random linkage matrices vs the Lean conversion model. Non-trivial = distinct case with >= 3 leaves and >= 2 distinct distances.')
+        'Also linkage_to_bio_tree on random linkage matrices vs the Lean conversion model, and gambit.cluster.hclust on synthetic symmetric matrices '
+        '(wide random = tie-free, small ranges / zeros / blocks = ties): its merge sequence is replayed in the exact UPGMA model GambitV.upgma '
+        '(every merge a minimal pair of active clusters, height = exact average within 1e-9 relative, n-1 rows ending in one cluster; tie-free => identical '
+        'to the model linkage, for which Props/C17 proves monotone heights, ValidLinkage and the tree theorems). Non-trivial = distinct case with >= 3 leaves and >= 2 distinct distances.')
 TRUSTED = ['harness/props/c17.py (Newick reader, exact scaling) + Driver/C17.lean', 'float64 subtraction and Newick number formatting are modelled by a tolerance, not proved']
 ASSUMPTIONS = ['SciPy linkage / Biopython writer are not trusted: their output is checked on every run']
 
